@@ -35,13 +35,23 @@ from .common import coq_str, coq_list, coq_bool, coq_nat, coq_opt
 HEADER = ("From Coq Require Import List String Ascii Bool.\n"
           "From Bardic Require Import PyStr Value Compiled Lex ParseBase ParseLine ParseMain ParseCheck.")
 
-# the constructs the whole-parse correspondence may contain (the coordinator widens this when part B
-# is merged: add "py-block", "if-block", "for-block", "join-block")
-ALLOWED_CONSTRUCTS = {"import", "metadata", "start", "header", "comment", "render", "input", "hook", "unhook",
-                      "join-marker", "jump", "stmt", "choice", "join-choice", "text", "glue", "blank", "other-at"}
+# Linking part B: with LINK_BLOCKS the whole-parse correspondence evaluates Compiler/ParseMain.v with the block
+# extractors of Compiler/ParseBlocks.v + ParseBlocksInst.v instead of stubs, and inputs with block constructs are
+# compared too.  Off until the coordinator has merged part B (env C11_LINK_BLOCKS=1 turns it on for a trial run).
+LINK_BLOCKS = os.environ.get("C11_LINK_BLOCKS") == "1"
 BLOCK_CONSTRUCTS = {"py-block", "if-block", "for-block", "join-block"}
+# the constructs the whole-parse correspondence may contain
+ALLOWED_CONSTRUCTS = {"import", "metadata", "start", "header", "comment", "render", "input", "hook", "unhook",
+                      "join-marker", "jump", "stmt", "choice", "join-choice", "text", "glue", "blank", "other-at"} | \
+    (BLOCK_CONSTRUCTS if LINK_BLOCKS else set())
+LINK_HEADER = ("\nFrom Bardic Require Import ParseBlocks ParseBlocksInst.\n"
+               "Definition linked : extractors := mkExtractors extract_python_block extract_conditional_block_real "
+               "extract_loop_block_real extract_join_choice_block_real.\n"
+               "Definition pcase_bad_l := pcase_bad_x linked.\nDefinition pcase_show_l := pcase_show_x linked.")
 
 ALARM_S = 5
+MAX_MODEL_LINE = 1500  # longer lines (only the pinned deep-nesting probes) are not sent to Coq: the model's string
+                      # accumulators are quadratic
 MAX_TIMEOUTS = 4      # after that many hangs the remaining inputs are not compiled (each hang costs ALARM_S)
 
 
@@ -849,7 +859,7 @@ def run(tier: str, seed: int) -> int:
 
     # ---------------- (c) totality oracle, (d) C12 validator, and the cases of (b) ----------------
     pterms, pmeta = [], []
-    skipped = {"block-construct": 0, "non-ascii": 0, "framework-or-legacy": 0, "outside-the-model": 0}
+    skipped = {"block-construct": 0, "non-ascii": 0, "framework-or-legacy": 0, "outside-the-model": 0, "line-too-long-for-vm_compute": 0}
     n_timeouts = 0
     for fam, ls in inputs:
         text = "\n".join(ls)
@@ -891,6 +901,9 @@ def run(tier: str, seed: int) -> int:
         if not C.is_ascii(text):
             skipped["non-ascii"] += 1
             continue
+        if max(len(l) for l in ls) > MAX_MODEL_LINE:
+            skipped["line-too-long-for-vm_compute"] += 1
+            continue
         if oc[0] == "timeout" or (oc[0] == "other" and oc[1] == "RecursionError") or pr.oracle_escapes:
             skipped["outside-the-model"] += 1     # reported above; stack depth and hangs are not outcomes of the model
             continue
@@ -900,7 +913,11 @@ def run(tier: str, seed: int) -> int:
             skipped["framework-or-legacy"] += 1
             continue
         pmeta.append({"family": fam, "source": text, "implementation": cls})
-    bad, shown, log = C.run_coq_cases(chk.scratch, HEADER, pterms, "pcase", "pcase_bad", show_fn="pcase_show", shard=120)
+    if LINK_BLOCKS:
+        bad, shown, log = C.run_coq_cases(chk.scratch, HEADER + LINK_HEADER, pterms, "pcase", "pcase_bad_l",
+                                          show_fn="pcase_show_l", shard=120)
+    else:
+        bad, shown, log = C.run_coq_cases(chk.scratch, HEADER, pterms, "pcase", "pcase_bad", show_fn="pcase_show", shard=120)
     for b in bad:
         n_dis += 1
         if isinstance(b, int):
